@@ -14,8 +14,32 @@ type ColAuto struct {
 	DataType ColumnType
 }
 
+// maxAutoDepth limits how deep Array, Nullable and LowCardinality can be
+// nested in a type that ColAuto infers. Infer recurses once per level, so
+// without the limit a corrupted type like "Array(Array(Array(..." of several
+// megabytes exhausts the goroutine stack, which can't be recovered from.
+const maxAutoDepth = 64
+
+// checkAutoDepth walks the chain of wrapper types that Infer would recurse on.
+func checkAutoDepth(t ColumnType) error {
+	for depth := 0; ; depth++ {
+		switch t.Base() {
+		case ColumnTypeArray, ColumnTypeNullable, ColumnTypeLowCardinality:
+			if depth >= maxAutoDepth {
+				return errors.Errorf("type is nested deeper than %d levels", maxAutoDepth)
+			}
+			t = t.Elem()
+		default:
+			return nil
+		}
+	}
+}
+
 // Infer and initialize Column from ColumnType.
 func (c *ColAuto) Infer(t ColumnType) error {
+	if err := checkAutoDepth(t); err != nil {
+		return err
+	}
 	if c.Data != nil && !c.Type().Conflicts(t) {
 		// Already ok, but the parameters of t (enum values, precision,
 		// time zone) can differ from the ones the column was inferred with.
